@@ -775,8 +775,9 @@ def sec_stateful(ck, e, T, rng):
         for sq in range(nseq):
             radius = int(rng.choice([100, 64]))
             t = klass(radius=radius)
-            pre = make(e, rng, str(rng.choice(CLASSES)), "any")
-            post = make(e, rng, str(rng.choice(CLASSES)), "any")
+            kpre, kpost = str(rng.choice(PART_KINDS)), str(rng.choice(PART_KINDS))
+            pre, fpre, dpre = rand_part(e, rng, kpre)
+            post, fpost, dpost = rand_part(e, rng, kpost)
             ct = ChainTransform(t, pre=pre, post=post)
             conform = True
             hist = []
@@ -806,12 +807,15 @@ def sec_stateful(ck, e, T, rng):
                         t.copy().param = np.round(rng.uniform(-8, 8, npar), 2)      # changing the copy must not touch t
                     elif op == "use-chain":
                         got = ct.apply(x)
-                        want = post.apply(t.apply(pre.apply(x)))
+                        Mo = ref_matrix(e, t)
+                        mid = fpre(x) @ Mo[:3, :3].T + Mo[:3, 3]
+                        want = fpost(mid)
                         dev = m2v_dev(e)
-                        if not close(got, want):
-                            attribute(ck, e, 2 * dev, maxerr(got, want), max(1.0, float(np.max(np.abs(want))), float(np.max(np.abs(t.apply(pre.apply(x)))))),
-                                      "state/chain-apply-after-updates", "ChainTransform.apply differs from post(optimizable(pre(x))) after parameter updates",
-                                      {"class": cname, "sequence": hist + [op], "points": x.tolist()})
+                        if not close(got, want, 1e-8):
+                            attribute(ck, e, 2 * dev, maxerr(got, want), max(1.0, float(np.max(np.abs(want))), float(np.max(np.abs(mid)))) ** 2,
+                                      "state/chain-apply-after-updates/%s-pre/%s-post" % (kpre, kpost),
+                                      "ChainTransform.apply differs from post(optimizable(pre(x))) after parameter updates",
+                                      {"class": cname, "pre": dpre, "post": dpost, "sequence": hist + [op], "points": x.tolist()})
                     elif op == "set-param":
                         detail = (np.round(rng.uniform(-8, 8, npar) * 8) / 8).tolist()
                         t.param = np.array(detail)
@@ -879,6 +883,95 @@ def sec_stateful(ck, e, T, rng):
                         attribute(ck, e, m2v_dev(e), maxerr(A, np.array(detail)), scale, "state/from_matrix44-on-used-object",
                                   "%s: from_matrix44 on an already used object does not describe the new matrix" % cname, replay)
     ck.section("stateful", sequences=nseq * len(CLASSES), steps=steps)
+
+
+def rand_part(e, rng, kind):
+    """A chain part of the given kind: (argument for ChainTransform / compose, independent reference function
+    on (N,3) points, JSON description).  Kinds: none, array (4x4), affine (one of the six classes), polyaffine,
+    callable (generic Transform around a non-linear, non-commuting map of bounded growth)."""
+    from nipy.algorithms.registration.transform import Transform
+    from nipy.algorithms.registration.polyaffine import PolyAffine
+    from nibabel.affines import apply_affine
+    if kind == "none":
+        return None, (lambda q: np.asarray(q, dtype=float)), "None"
+    if kind == "array":
+        M = make(e, rng, "Affine", "any").as_affine().copy()
+        return M.copy(), (lambda q, M=M: apply_affine(M, q)), {"array": M.tolist()}
+    if kind == "affine":
+        nm = str(rng.choice(CLASSES))
+        a = make(e, rng, nm, "any")
+        M = a.as_affine().copy()
+        return a, (lambda q, M=M: apply_affine(M, q)), {"class": nm, "vec12": a._vec12.tolist(), "direct": bool(a.is_direct)}
+    if kind == "polyaffine":
+        nc = int(rng.integers(1, 4))
+        centers = rng.uniform(-10, 10, (nc, 3))
+        mats = np.array([make(e, rng, "Affine", "any").as_affine() for _ in range(nc)])
+        sigma = float(rng.uniform(3, 10))
+        twin = PolyAffine(centers.copy(), mats.copy(), sigma)        # never handed to the code under test
+        return PolyAffine(centers.copy(), mats.copy(), sigma), (lambda q, twin=twin: twin.apply(q)), \
+            {"polyaffine": {"centers": centers.tolist(), "affines": mats.tolist(), "sigma": sigma}}
+    if kind == "callable":
+        k = int(rng.integers(0, 3))
+        c = float(np.round(rng.uniform(0.5, 2.0), 3))
+        fn = [lambda q, c=c: 20.0 * np.cos(np.asarray(q) * 0.1 * c) + 1.0, lambda q, c=c: 15.0 * np.tanh(np.asarray(q) * 0.05) ** 3 * c,
+              lambda q, c=c: np.asarray(q)[:, ::-1] - c][k]
+        return Transform(fn), fn, {"callable": k, "c": c}
+    raise ValueError(kind)
+
+
+PART_KINDS = ["none", "array", "affine", "polyaffine", "callable"]
+
+
+def sec_chain_mixed(ck, e, rng):
+    """ChainTransform whose pre / post parts are ANY transform the docstring allows (None, 4x4 array, affine
+    object, PolyAffine, generic callable) around an optimizable affine of any class: apply must equal applying
+    pre, optimizable, post in turn - also after parameter updates through ChainTransform.param."""
+    from nipy.algorithms.registration.chain_transform import ChainTransform
+    reps = ck.n(2, 12)
+    n = 0
+    for kpre in PART_KINDS:
+        for kpost in PART_KINDS:
+            for r in range(reps):
+                pre, fpre, dpre = rand_part(e, rng, kpre)
+                post, fpost, dpost = rand_part(e, rng, kpost)
+                cname = str(rng.choice(CLASSES))
+                opt = make(e, rng, cname, "any")
+                x = pts(rng, 5)
+                n += 1
+                ck.count(("chain-mixed", kpre, kpost, r, cname, tuple(opt._vec12)), bucket="chain-mixed:%s/%s" % (kpre, kpost))
+                replay = {"pre": dpre, "post": dpost, "optimizable": {"class": cname, "vec12": opt._vec12.tolist(), "direct": bool(opt.is_direct)},
+                          "points": x.tolist()}
+                sig_kind = "%s-pre/%s-post" % (kpre, kpost)
+                begin(e)
+                e.pa_unnormalised = 0
+                try:
+                    ct = ChainTransform(opt, pre=pre, post=post)
+                    got = ct.apply(x)
+                    # update the optimizable part through the chain and apply again (same chain object)
+                    p = np.round(rng.uniform(-4, 4, len(opt.param_inds)) * 8) / 8
+                    ct.param = p
+                    got2 = ct.apply(x)
+                except Exception as ex:  # noqa
+                    ck.fail("chain/raises/" + sig_kind, "ChainTransform(%s, pre=<%s>, post=<%s>) raised %s: %s" % (cname, kpre, kpost, type(ex).__name__, ex), replay)
+                    continue
+                dev = m2v_dev(e)
+                # NB: `got` was produced before the update; its reference needs the old parameters -> recompute from a twin
+                twin = e.cls[cname](np.asarray(replay["optimizable"]["vec12"]), radius=1)
+                if not opt.is_direct:
+                    reflect(twin)
+                Mo1 = twin.as_affine()
+                Mo2 = opt.as_affine()
+                for tag, g, Mo in (("", got, Mo1), ("/after-param-update", got2, Mo2)):
+                    mid = fpre(x)
+                    mid2 = mid @ Mo[:3, :3].T + Mo[:3, 3]
+                    want = fpost(mid2)
+                    if not close(g, want, 1e-8):
+                        sc = max(1.0, float(np.max(np.abs(want))), float(np.max(np.abs(mid2)))) ** 2
+                        attribute(ck, e, 2 * dev, maxerr(g, want), sc, "chain/apply-is-not-post.opt.pre/%s%s" % (sig_kind, tag),
+                                  "ChainTransform(%s, pre=<%s>, post=<%s>).apply differs from post(optimizable(pre(x))) by %g"
+                                  % (cname, kpre, kpost, maxerr(g, want)), dict(replay, param_after_update=p.tolist()))
+                        break
+    ck.section("chain_mixed", cases=n, kinds=PART_KINDS)
 
 
 def sec_chain(ck, e, T, rng):
@@ -1176,6 +1269,7 @@ def run(ck):
     sec_from44(ck, e, T, ck.rng("from44"))
     sec_param(ck, e, T, ck.rng("param"))
     sec_chain(ck, e, T, ck.rng("chain"))
+    sec_chain_mixed(ck, e, ck.rng("chain-mixed"))
     sec_stateful(ck, e, T, ck.rng("stateful"))
     sec_generic(ck, e, ck.rng("generic"))
     sec_pool(ck, e, ck.rng("pool"))
